@@ -1819,13 +1819,17 @@ class LRTable(object):
         else:
             old_path = sys.path
             sys.path = [outputdir]
-            if sys.version_info[0] < 3:
-                exec("import %s as parsetab" % module)
-            else:
-                env = { }
-                exec("import %s as parsetab" % module, env, env)
-                parsetab = env['parsetab']
-            sys.path = old_path
+            try:
+                if sys.version_info[0] < 3:
+                    exec("import %s as parsetab" % module)
+                else:
+                    env = { }
+                    exec("import %s as parsetab" % module, env, env)
+                    parsetab = env['parsetab']
+            finally:
+                # a missing or unreadable table module must not leave the
+                # interpreter with a module search path reduced to outputdir
+                sys.path = old_path
 
         if parsetab._tabversion != __tabversion__:
             raise VersionError("yacc table file version is out of date")
